@@ -2,6 +2,7 @@ import PyPhysim.Proofs.C05Runner
 import PyPhysim.Proofs.C05Grid
 import PyPhysim.Proofs.C05Params
 import PyPhysim.Proofs.C05Result
+import PyPhysim.Proofs.C05Exact
 
 /-!
 # C05 — the Monte Carlo runner runs exactly the requested repetitions per variation
@@ -527,6 +528,67 @@ theorem lookup_depends_only_on_content {X : Type} (s s' : PState) (hn : s.unpack
     s.lookup results fixed = s'.lookup results fixed :=
   lookup_sameContent s s' hn hn' hc results fixed
 
+/-! ## R15 — values are compared exactly; R16 — the object holds contents, not containers -/
+
+/-- **Exact look-ups (R15).**  The model sees the values of the parameters only through
+    `==`: every look-up commutes with ANY injective renaming `f` of the values — the
+    variations carry the renamed values in the same order, `get_pack_indexes` and
+    `get_result_values_list` return the same positions / results.  So it does not matter
+    how close the images of two distinct values are (`f` = base integer ↦ a member of a
+    cluster of floats 1 ulp, 1e-13, a relative 1e-6 apart, or all below 1e-8): they stay
+    distinct and each one is looked up exactly; no tolerance, rounding or threshold
+    identifies them. -/
+theorem lookup_exact {V W X : Type} [BEq V] [LawfulBEq V] [BEq W] [LawfulBEq W] (f : V → W)
+    (hf : ∀ a b, f a = f b → a = b) (ps : List (Param V)) (results : List X)
+    (fixed : List (String × V)) :
+    combos (relabel f ps) = (combos ps).map (List.map f) ∧
+    packIndexes (relabel f ps) (relabelFixed f fixed) = packIndexes ps fixed ∧
+    resultValues (relabel f ps) results (relabelFixed f fixed) = resultValues ps results fixed :=
+  ⟨combos_relabel f ps, packIndexes_relabel f hf ps fixed, resultValues_relabel f hf ps results fixed⟩
+
+/-- **Distinct listed values are looked up separately (R15)**, whatever they are: two
+    different values of an unpacked parameter never resolve to the same variation, and
+    each resolves to the position where it is listed. -/
+theorem close_values_looked_up_separately {V : Type} [BEq V] [LawfulBEq V] (name : String)
+    (vals : List V) (v w : V) (hv : v ∈ vals) (hw : w ∈ vals) (hne : v ≠ w) :
+    ∃ k j, packIndexes [(name, vals)] [(name, v)] = .ok [k] ∧
+           packIndexes [(name, vals)] [(name, w)] = .ok [j] ∧
+           vals[k]? = some v ∧ vals[j]? = some w ∧ k ≠ j := by
+  obtain ⟨k, hk⟩ := indexOf_of_mem v vals hv
+  obtain ⟨j, hj⟩ := indexOf_of_mem w vals hw
+  refine ⟨k, j, packIndexes_single name vals v k hk, packIndexes_single name vals w j hj,
+    (indexOf_some v vals k hk).1, (indexOf_some w vals j hj).1, ?_⟩
+  intro e
+  subst e
+  exact hne (indexOf_separates v w vals k hk hj)
+
+/-- **A setter called with ANY new value takes effect (R15)**: after `add(name, v)` the
+    object stores exactly `v`, and storing a different value — however close — gives a
+    different stored value: there is no "unchanged, skip" path in the model. -/
+theorem setter_takes_effect_for_every_new_value (s : PState) (name : String) (v v' : PVal)
+    (hne : v' ≠ v) :
+    (s.step (.add name v)).1.params.lookup name = some v ∧
+    (s.step (.add name v')).1.params.lookup name ≠ (s.step (.add name v)).1.params.lookup name := by
+  have h1 := (content_after_add s name v).2.1
+  have h2 := (content_after_add s name v').2.1
+  refine ⟨h1, ?_⟩
+  rw [h1, h2]
+  exact fun e => hne (Option.some.inj e)
+
+/-- **Refilling a container that is bound to two parameters (R16).**  The object holds
+    contents: overwriting in place the one container that was handed over for the
+    parameters `a` and `b` is the replacement of both value lists, and after any history
+    every look-up is the same whichever of the two is considered replaced first — and,
+    by `lookup_no_stale_state`, the same as on an object freshly built with the new
+    contents. -/
+theorem refill_of_shared_container {X : Type} (ops : List POp) (a b : String) (v : PVal)
+    (hab : a ≠ b) (results : List X) (fixed : List (String × Int)) :
+    (PState.empty.run (ops ++ [.add a v, .add b v])).lookup results fixed =
+    (PState.empty.run (ops ++ [.add b v, .add a v])).lookup results fixed := by
+  apply lookup_no_stale_state
+  rw [run_append, run_append]
+  exact sameContent_add_comm _ a b v v hab
+
 /-! ## Every observable of a stored `Result` is the fold of the repetitions -/
 
 /-- **The accumulated value / total lists of a stored result hold the values of ALL
@@ -610,6 +672,21 @@ example :
        [("c", .scalar 0), ("b", .list [3, 4]), ("a", .list [7, 8, 9])], ["a", "b"]) := by
   decide
 
+
+/-- R15: the grid `a = [3, 4, 5]` renamed by the injective `b ↦ 2400000000 + 200 b` (values a
+    relative 1e-7 apart): the renamed `4` is found at position 1, the renamed `6`, which is
+    just as close but not listed, is refused -/
+example :
+    let f : Nat → Nat := fun b => 2400000000 + 200 * b
+    (packIndexes (relabel f [("a", [3, 4, 5])]) (relabelFixed f [("a", 4)]),
+     packIndexes (relabel f [("a", [3, 4, 5])]) (relabelFixed f [("a", 6)]),
+     combos (relabel f [("a", [3, 4, 5])]))
+      = (.ok [1], .error .ValueError, [[2400000600], [2400000800], [2400001000]]) := by
+  intro f
+  have hs : sortParams (relabel f [("a", [3, 4, 5])]) = relabel f [("a", [3, 4, 5])] := by
+    simp [relabel, sortParams]
+  simp only [packIndexes, combos, hs]
+  decide
 
 /-- a variation with a skip in the first repetition, a stop rule that fires before
     the limit (`sum < 5`), and a left-over stream -/
